@@ -3,6 +3,8 @@ package props
 import (
 	"fmt"
 	"go/token"
+	"go/types"
+	"sort"
 	"strings"
 
 	"mrocheck/an"
@@ -168,6 +170,7 @@ func runC08(c *an.Ctx) {
 			c.Check("P3", "processed-set-shared@(*Parser).getIncludes", in.Pos(), passed, "the recursion must share one processed set")
 		}
 	}
+	c08IncludeGraph(c)
 	// information: explicit panics in package syntax outside the parse stage
 	nPanic := 0
 	for _, fn := range p.FuncsOf(pkgSyntax) {
@@ -202,6 +205,17 @@ func isRecoverBarrier(caller *ssa.Function, d *ssa.Defer) (bool, string) {
 	})
 	if rec == nil {
 		return false, "the deferred closure does not call recover()"
+	}
+	// the handler must absorb every recovered value: it must not panic again (directly or by
+	// calling another function of the module that panics unconditionally is not examined)
+	rePanics := false
+	an.Instrs(fn, func(in ssa.Instruction) {
+		if _, ok := in.(*ssa.Panic); ok {
+			rePanics = true
+		}
+	})
+	if rePanics {
+		return false, "the deferred recover handler panics again for some recovered values: those panics still crash the process"
 	}
 	// stores of a non-zero int constant to a free variable, guarded by recover() != nil
 	okStore := false
@@ -250,4 +264,100 @@ func isRecoverBarrier(caller *ssa.Function, d *ssa.Defer) (bool, string) {
 		return false, "on a recovered panic the function's result is not set to a failure value"
 	}
 	return true, ""
+}
+
+// P3 (include graph): several functions walk SourceFile.IncludedFrom recursively without a visited
+// set (cycle check, error location printing).  They terminate only if the includer graph is acyclic.
+// An edge added to a file that already exists in the graph (not a freshly allocated SourceFile) must
+// therefore be added only on the path where the cycle check returned no error - or every walker must
+// guard its recursion with a visited set.
+func c08IncludeGraph(c *an.Ctx) {
+	p := c.P
+	incFrom := p.Field(pkgSyntax, "SourceFile", "IncludedFrom")
+	if incFrom == nil {
+		c.Undecided("P3", "anchor(SourceFile.IncludedFrom)", token.NoPos, "field not found")
+		return
+	}
+	fns := p.FuncsOf(pkgSyntax)
+	walkers := map[*ssa.Function]bool{}
+	for _, fn := range fns {
+		if len(callsTo(fn, fn)) == 0 {
+			continue
+		}
+		loads := false
+		an.Instrs(fn, func(in ssa.Instruction) {
+			if fa, ok := in.(*ssa.FieldAddr); ok {
+				if _, f := an.FieldOfAddr(fa); f == incFrom {
+					loads = true
+				}
+			}
+		})
+		if loads {
+			walkers[fn] = true
+		}
+	}
+	var wn []string
+	for w := range walkers {
+		wn = append(wn, an.FnName(w))
+	}
+	sort.Strings(wn)
+	c.Note("recursive walkers over SourceFile.IncludedFrom: %v", wn)
+	c.Floor("P3", "recursive walkers over SourceFile.IncludedFrom", len(walkers), 2)
+	// does every walker carry a visited set?
+	allVisited := len(walkers) > 0
+	for w := range walkers {
+		for _, s := range callsTo(w, w) {
+			g, _ := an.GuardedBy(s.(ssa.Instruction), func(r an.Rel) bool {
+				var hasLookup func(v ssa.Value, d int) bool
+				hasLookup = func(v ssa.Value, d int) bool {
+					if v == nil || d > 4 {
+						return false
+					}
+					switch x := v.(type) {
+					case *ssa.Lookup:
+						_, isMap := x.X.Type().Underlying().(*types.Map)
+						return isMap
+					case *ssa.Extract:
+						return hasLookup(x.Tuple, d+1)
+					case *ssa.UnOp:
+						return hasLookup(x.X, d+1)
+					}
+					return false
+				}
+				return hasLookup(r.X, 0) || hasLookup(r.Y, 0)
+			})
+			if !g {
+				allVisited = false
+			}
+		}
+	}
+	n := 0
+	for _, fn := range fns {
+		for _, st := range an.StoresToField(fn, incFrom) {
+			if st.Parent() != fn {
+				continue
+			}
+			base, _ := an.FieldOfAddr(st.Addr)
+			if al, ok := an.Strip(base).(*ssa.Alloc); ok && al.Heap {
+				c.Pass("P3", "include-edge(new file)@"+an.FnName(fn), st.Pos(), "a freshly created source file has no includers yet: the edge cannot close a cycle")
+				n++
+				continue
+			}
+			n++
+			g, w := an.GuardedBy(st, func(r an.Rel) bool {
+				if r.Op != token.EQL || !an.IsNil(r.Y) {
+					return false
+				}
+				call, ok := r.X.(*ssa.Call)
+				if !ok {
+					return false
+				}
+				f := call.Call.StaticCallee()
+				return f != nil && walkers[f]
+			})
+			c.Check("P3", "include-edge(existing file)-only-if-acyclic@"+an.FnName(fn), st.Pos(), g || allVisited,
+				fmt.Sprintf("an includer edge is added to a file that is already part of the include graph; the walkers %v recurse over these edges without a visited set, so the edge may be added only where the cycle check returned nil (otherwise a cyclic @include makes them recurse forever: stack overflow / endless error text); %s", wn, c.WitnessString(w)))
+		}
+	}
+	c.Floor("P3", "stores to SourceFile.IncludedFrom", n, 2)
 }
